@@ -10,7 +10,7 @@ RULE = ('genomes of 1..4 chromosomes (size 1..7); leaf arrays from bedGraphs (ev
         'ends at size / earlier x gaps / touching records x int / float / bool values x empty; exhaustive record sets '
         'of <= 3 records on one chromosome of size <= 5 (quick: 4)), from interval sets (get_mask, get_pileup; '
         'unsorted, overlapping, touching across a chromosome boundary) and from GenomicRunLengthArray.from_intervals '
-        '(scalar / per-interval values, default value); well-typed expression trees over {+,-,*,<,>,==,&,|,~} with '
+        '(scalar / per-interval values, default value); bedGraphs whose neighbouring runs are np.isclose-equal but different (250 | 250+2^-10, 2^-40 next to 0, 2000000 | 2000001); interval sets of 2^15+1 / 2^16+1 rows (thorough: 2^16-1, 2^16, 100000, 2^17+1) on a tiny genome through get_pileup / get_mask, sent to Coq as (interval, multiplicity); well-typed expression trees over {+,-,*,<,>,==,&,|,~} with '
         'array and Python-scalar operands up to depth 3; np.sum / .sum() (positional, keyword and method forms of axis=None) and np.histogram of the result in every calling convention (bins int or explicit edges x positional / keyword, range positional / keyword / absent, default call), counts and edges compared.  non-trivial = some leaf has '
         'a record, and the case has two or more chromosomes or an operator')
 EXHAUSTIVE = {'quick': False, 'thorough': False}
@@ -221,6 +221,54 @@ def interval_leaf(rng, tag, sizes):
     return dict(tag=tag, kind='b' if tag == 1 else 'i', recs=recs, value=V(1), default=V(0))
 
 
+def expand_rows(recs):
+    """interval records with multiplicities -> the rows of the interval set, round robin over the distinct records
+    (record j of k occurs N // k + (1 if j < N % k else 0) times for N rows in total)."""
+    mult = [r[3][0] for r in recs]
+    if all(m == 1 for m in mult):
+        return recs
+    k, n = len(recs), sum(mult)
+    assert mult == [n // k + (1 if j < n % k else 0) for j in range(k)], mult
+    return [recs[i % k] for i in range(n)]
+
+
+def big_interval_leaf(rng, tag, sizes, n_rows):
+    """size-threshold case: an interval set of n_rows rows (k distinct intervals, round robin) on a tiny genome"""
+    k = rng.randint(3, 6)
+    recs = []
+    for j in range(k):
+        c = rng.randrange(len(sizes))
+        n = sizes[c]
+        s = rng.randrange(n)
+        e = rng.randint(s + 1, n)
+        recs.append([c, s, e, V(n_rows // k + (1 if j < n_rows % k else 0))])
+    return dict(tag=tag, kind='b' if tag == 1 else 'i', recs=recs, value=V(1), default=V(0), rows=n_rows)
+
+
+NEAR = {'f250': ('f', [250.0, 250 + 2.0 ** -10, 250 + 2.0 ** -9]),          # np.isclose-equal, different (dyadic: sums stay exact)
+        'f1': ('f', [1 + 2.0 ** -20, 1 + 2.0 ** -19, 1.0]),
+        'tiny': ('f', [2.0 ** -40, 2.0 ** -30, 2.0 ** -27]),                # below atol 1e-8: close to a zero gap
+        'ibig': ('i', [2000000, 2000001, 2000002])}
+
+
+def near_leaf(rng, sizes, fam):
+    """bedGraph whose NEIGHBOURING runs hold values that differ by less than np.isclose's tolerance"""
+    kind, vals = NEAR[fam]
+    recs, j = [], rng.randrange(3)
+    for c, n in enumerate(sizes):
+        if n < 2 or rng.random() < 0.2:
+            continue
+        cuts = sorted(set([0, n] + [rng.randint(1, n - 1) for _ in range(rng.randint(1, 3))]))
+        if fam == 'tiny' or rng.random() < 0.3:          # leave a zero run next to a value
+            cuts = cuts[rng.randint(0, 1):]
+        for a, b in zip(cuts[:-1], cuts[1:]):
+            if fam == 'tiny' and rng.random() < 0.3:
+                continue
+            recs.append([c, a, b, V(vals[j % 3])])
+            j += 1
+    return dict(tag=0, kind=kind if recs else 'i', recs=recs, value=V(0), default=V(0))
+
+
 def direct_leaf(rng, sizes, array_values=None, touching=False):
     """GenomicRunLengthArray.from_intervals on the flat genome axis (intervals sorted, strictly separated
     unless `touching`)."""
@@ -385,6 +433,21 @@ def generate(tier, seed):
             sizes = [n] if (n < 2 or i % 2 == 0) else [1 + i % (n - 1), n - 1 - i % (n - 1)]
             cases.append(mk(sizes, [leaf], ['leaf', 0] if i % 3 else rand_expr(rng, [leaf], 1), EDGES[i % len(EDGES)], names=i % 2))
             i += 1
+    # E. neighbouring runs with nearly equal values (np.isclose-equal but different), zero gaps next to tiny values
+    for fam in ('f250', 'f1', 'tiny', 'ibig'):
+        for j in range(12 if quick else 60):
+            sizes = [rng.randint(2, 7) for _ in range(rng.randint(1, 3))]
+            leaf = near_leaf(rng, sizes, fam)
+            cases.append(mk(sizes, [leaf], ['leaf', 0] if j % 2 == 0 else rand_expr(rng, [leaf], 1), EDGES[j % len(EDGES)], names=j % 2))
+    # F. size thresholds: interval sets with just over 2^15 / 2^16 rows (not multiples) on a tiny genome, pileup and mask
+    for n_rows in ([2 ** 15 + 1, 2 ** 16 + 1] if quick else [2 ** 15 + 1, 2 ** 16 - 1, 2 ** 16, 2 ** 16 + 1, 100000, 2 ** 17 + 1]):
+        for tag in (2, 1):
+            sizes = [rng.randint(2, 9) for _ in range(rng.randint(1, 3))]
+            leaf = big_interval_leaf(rng, tag, sizes, n_rows)
+            cases.append(mk(sizes, [leaf], ['leaf', 0], EDGES[3], names=tag % 2))
+        sizes = [rng.randint(2, 9) for _ in range(2)]
+        lp, lm = big_interval_leaf(rng, 2, sizes, n_rows), big_interval_leaf(rng, 1, sizes, n_rows - 1000)
+        cases.append(mk(sizes, [lp, lm], ['aa', '*', ['leaf', 0], ['leaf', 1]], EDGES[3]))
     # C. random genomes, mixed leaves, expression trees to depth 3
     n_rand = 1000 if quick else 8000
     for j in range(n_rand):
@@ -427,7 +490,7 @@ def _dense_leaf(np, case, l):
     elif l['tag'] == 2:
         a = np.zeros(tot, dtype=np.int64)
         for c, s, e, v in l['recs']:
-            a[offs[c] + s: offs[c] + e] += 1
+            a[offs[c] + s: offs[c] + e] += v[0]          # the value field of an interval record is its multiplicity
     else:
         a = np.full(tot, unV(l['default'], k), dtype=dt)
         for c, s, e, v in l['recs']:
@@ -488,7 +551,8 @@ def observe(case):
                               np.array([unV(r[3], k) for r in l['recs']], dtype=dt))
                 x = g.get_track(bg)
             elif l['tag'] in (1, 2):
-                iv = g.get_intervals(Interval([names[r[0]] for r in l['recs']], [r[1] for r in l['recs']], [r[2] for r in l['recs']]))
+                rows = expand_rows(l['recs'])
+                iv = g.get_intervals(Interval([names[r[0]] for r in rows], [r[1] for r in rows], [r[2] for r in rows]))
                 x = iv.get_mask() if l['tag'] == 1 else iv.get_pileup()
             else:
                 starts = np.array([r[1] for r in l['recs']], dtype=int)
